@@ -1455,6 +1455,12 @@ class SSHClientChannel(SSHChannel, Generic[AnyStr]):
             raise ChannelOpenError(OPEN_REQUEST_SESSION_FAILED,
                                    'Session request failed')
 
+        if not self._conn:
+            # The connection was closed after the reply arrived but
+            # before we were resumed, so this channel is already gone
+            raise ChannelOpenError(OPEN_CONNECT_FAILED,
+                                   'SSH connection closed')
+
         self._session_started = True
         self._session.session_started()
         self._conn.create_task(self._start_reading(), self.logger)
